@@ -19,7 +19,7 @@ func init() {
 		Bounds: func(thorough bool) map[string]string {
 			steps := "2 Reads / 3 Writes"
 			if thorough {
-				steps = "4 Reads / 5 Writes"
+				steps = "3 Reads / 3 Writes"
 			}
 			return map[string]string{
 				"limit, counters": "none: all 64-bit values (symbolic)",
